@@ -4,6 +4,7 @@
 # on a virtual monotonic clock; the trace of (fn, virtual time, payloads on the
 # clock links) is checked against the deadline recurrence of the statement.
 
+import math
 import threading
 
 from vf import common, sim, vclock, vnet
@@ -15,8 +16,13 @@ TOL_NS = 2          # float <-> ns conversions inside clck_gen / the fake Event
 
 
 class Run:
-	def __init__(self, world, start_fn, period, nlinks, nticks, hdur, lat):
-		self.vt = vclock.VTime()
+	def __init__(self, world, start_fn, period, nlinks, nticks, hdur, lat, origin = 1_000_000_000):
+		# the origin of a monotonic clock is unspecified: a host that has been up for more than 104 days reads more than
+		# 2^53 ns, beyond what a float holds exactly.  Deadlines are still compared exactly, except that one rounding of
+		# a float number of seconds at that origin is tolerated per tick - never a growing one
+		self.vt = vclock.VTime(origin)
+		self.origin = origin
+		self.tol = TOL_NS if origin < 2 ** 53 else max(TOL_NS, int(2 * math.ulp(origin * 1e-9) * 1e9) + 1)
 		sim.clck_gen.time = self.vt
 		self.links = []
 		self.eps = []
@@ -132,8 +138,8 @@ def check_trace(ctx, run, T, desc, restarted = False):
 		if fn == 0 and k > 0:
 			ctx.count("hyperframe_wraps")
 		lat = run.lat(k)
-		if not (d - TOL_NS <= t <= d + lat + TOL_NS):
-			early = t < d - TOL_NS
+		if not (d - run.tol <= t <= d + lat + run.tol):
+			early = t < d - run.tol
 			return ("tick %d at virtual time %+d ns relative to its deadline (allowed 0..%d): %s" % (k, t - d, lat,
 				"fired early (catch-up burst / deadline derived from the wrong base)" if early else
 				"fired late (handler time or earlier latencies accumulate)"))
@@ -220,7 +226,7 @@ def r_const(i):
 
 def run(ctx):
 	ctx.rule = ("runs of 300-5000 ticks of the real CLCKGen thread under a virtual clock: handler-duration patterns (0, 0.5T, 0.99T, T-1, T, "
-		"T+1, 1.01T, 3T, alternating, random, single long stall, ramp), wake-up latencies 0..200 us, start frames incl. 2715646/2715647, "
+		"T+1, 1.01T, 3T, alternating, random, single long stall, ramp), wake-up latencies 0..200 us, clock origins 1 s and 2^53..2^62 ns, start frames incl. 2715646/2715647, "
 		"indication periods {1,2,51,102,1000}, 0..3 clock links, plus stop()/start() restarts; distinct = distinct run descriptors "
 		"(pattern, latencies, start, period, links, length); all non-trivial")
 	ctx.assume("virtual time replaces time.monotonic_ns and Event.wait of clck_gen only; time is frozen while clck_gen's own code runs")
@@ -241,10 +247,14 @@ def run(ctx):
 		lseed = r.getrandbits(32)
 		lat = (lambda k: 0) if lmode == 0 else (lambda k, s = lseed: hash((s, k)) % 200000) if lmode == 1 \
 			else (lambda k, s = lseed: 150000 if hash((s, k)) % 7 == 0 else 0)
-		desc = {"start_fn": start_fn, "ind_period": period, "links": nlinks, "ticks": nticks, "handler": pname,
+		origin = 1_000_000_000 if r.random() < 0.6 else r.choice((2 ** 53 - 100 * T, 2 ** 53 + 12345, 2 ** 55 + 1, 2 ** 56 + 7,
+			2 ** 58 + 999, 2 ** 60 + 3, 2 ** 62 + 1))
+		if origin > 2 ** 52:
+			ctx.count("runs_with_clock_origin_beyond_2^53_ns")
+		desc = {"start_fn": start_fn, "ind_period": period, "links": nlinks, "ticks": nticks, "handler": pname, "clock_origin_ns": origin,
 			"latency": ["none", "random 0..200us", "150us on 1/7 of the wake-ups"][lmode]}
 		ctx.seen(common.h64(desc))
-		rn = Run(world, start_fn, period, nlinks, nticks, hdur, lat)
+		rn = Run(world, start_fn, period, nlinks, nticks, hdur, lat, origin)
 		if nlinks and r.random() < 0.3:
 			for _ in range(r.randint(1, 6)):
 				rn.link_script[r.randrange(nticks)] = (r.choice(("add", "del")), r.randrange(nlinks))
@@ -291,6 +301,7 @@ def run(ctx):
 	ctx.require("indications_checked", 100)
 	ctx.require("restarts", 10)
 	ctx.require("runs_with_changing_links", 20)
+	ctx.require("runs_with_clock_origin_beyond_2^53_ns", 20)
 
 
 def replay(ctx, data):
